@@ -4,8 +4,10 @@
 //   c18_env random <n> <seed> <len>      generate n random jobs (10-20 keys, long histories) and execute
 //
 // A job is {"seed":n,"ninst":k,"steps":[{"op":"Cfg",...},{"op":"New"|"Create"|"Merge"|"MkProv"|"Emit"|"Read",...}]}
-// in the vocabulary of spec/ResourceEnv.tla.  Every job runs in a forked child (Resource::Create caches
-// the environment in a function-local static; UBSan kills the process on signed overflow).  The child
+// in the vocabulary of spec/ResourceEnv.tla; an input line is a job or {"batch":[jobs with the same Cfg]}.
+// Every batch runs in a forked child of its own (Resource::Create caches the environment in a
+// function-local static; UBSan kills the process on signed overflow, after which the remaining jobs go
+// to a fresh child).  The child
 // performs each step on the REAL classes through their public interface and writes one ndjson event
 // per call with the observable projection; the parent adds the event for a call that killed the child.
 // The log is validated by spec/ResourceEnvTrace.tla - nothing is decided here.
@@ -661,35 +663,21 @@ static void emit(FILE *f, const json &j)
   fflush(f);
 }
 
-[[noreturn]] static void child_main(const json &job, size_t from_step, int from_inst, FILE *out)
+struct Env
 {
-  // keep the SDK's own diagnostics out of the way
-  sdkc::internal_log::GlobalLogHandler::SetLogLevel(sdkc::internal_log::LogLevel::None);
-  uint64_t seed = job.value("seed", 1);
-  int ninst     = job.value("ninst", 1);
+  json toks, svc;
+  std::string ora;
+};
+
+// one history (job) inside the child; returns normally when the history is over
+static void run_steps(const json &job, size_t jn, const Tables &tab, const Env &env, size_t from_step, int from_inst, FILE *out)
+{
+  uint64_t seed    = job.value("seed", 1);
+  int ninst        = job.value("ninst", 1);
   bool inst_random = job.value("inst_random", false);
   Rng rng(seed);
-  static const std::vector<std::string> salts = {"", "-x", ".0123456789abcdefghijklmnopqrstuvwxyzABCDEFGHIJKLMNOPQRSTUVWXYZ/0123456789"};
-  Tables tab(salts[rng.below(salts.size())]);
   const json &steps = job["steps"];
-
-  // ---- environment (step 0 = Cfg)
-  json cfg        = steps.at(0);
-  json toks       = cfg.value("toks", json::array());
-  if (!toks.is_array())
-    toks = json::array();
-  json svc        = cfg.value("svc", json{{"c", "unset"}, {"v", "-"}});
-  std::string ora = concretise_tokens(tab, toks, rng);
-  if (toks.empty() && rng.below(2) == 0)
-    unsetenv("OTEL_RESOURCE_ATTRIBUTES");
-  else
-    setenv("OTEL_RESOURCE_ATTRIBUTES", ora.c_str(), 1);
-  if (svc["c"] == "unset")
-    unsetenv("OTEL_SERVICE_NAME");
-  else if (svc["c"] == "empty")
-    setenv("OTEL_SERVICE_NAME", "", 1);
-  else
-    setenv("OTEL_SERVICE_NAME", tab.str(svc["v"]).c_str(), 1);
+  g_errno_shadow    = 0;
   unsetenv("OTEL_SDK_DISABLED");
   unsetenv("C18_VAR");
 
@@ -706,14 +694,15 @@ static void emit(FILE *f, const json &j)
       a.push_back(project(tab, *pool[i]));
     return a;
   };
-  emit(out, json{{"e", "Cfg"}, {"toks", toks}, {"svc", svc}, {"pool", pool_json()}, {"ora", ora}, {"seed", std::to_string(seed)}, {"job", job.value("id", -1)}});
+  emit(out, json{{"e", "Cfg"}, {"toks", env.toks}, {"svc", env.svc}, {"pool", pool_json()}, {"ora", env.ora},
+                 {"seed", std::to_string(seed)}, {"job", job.value("id", -1)}});
 
   size_t since_audit = 0;
   for (size_t i = 1; i < steps.size(); i++)
   {
-    const json &st  = steps[i];
-    std::string op  = st["op"];
-    bool skip       = i < from_step;
+    const json &st = steps[i];
+    std::string op = st["op"];
+    bool skip      = i < from_step;
     if (op == "Read")
     {
       for (int inst = 0; inst < ninst; inst++)
@@ -723,10 +712,11 @@ static void emit(FILE *f, const json &j)
         Conc c = concretise(st["s"], ci, rng);
         if (skip || (i == from_step && inst < from_inst))
           continue;
-        json ev = {{"e", "Read"}, {"r", st["r"]}, {"s", st["s"]}, {"errno", st["errno"]}, {"conc", c.unset ? std::string("<unset>") : c.text},
-                   {"step", i},   {"inst", inst}};
-        json pre = ev;
-        pre["pre"] = 1;
+        json ev = {{"e", "Read"}, {"r", st["r"]}, {"s", st["s"]}, {"errno", st["errno"]},
+                   {"conc", c.unset ? std::string("<unset>") : c.text}, {"step", i}, {"inst", inst}};
+        json pre      = ev;
+        pre["pre"]    = 1;
+        pre["jobidx"] = jn;
         emit(out, pre);
         std::string ret, val;
         do_read(st["r"], c, st["errno"], ret, val);
@@ -741,10 +731,11 @@ static void emit(FILE *f, const json &j)
       fprintf(stderr, "c18_env: cannot restart behind a stateful step\n");
       _exit(90);
     }
-    json pre = st;
-    pre["pre"] = 1;
-    pre["e"]   = op;
-    pre["step"] = i;
+    json pre      = st;
+    pre["pre"]    = 1;
+    pre["e"]      = op;
+    pre["step"]   = i;
+    pre["jobidx"] = jn;
     emit(out, pre);
     if (op == "New")
     {
@@ -776,8 +767,7 @@ static void emit(FILE *f, const json &j)
         emit(out, json{{"e", "Create"}, {"user", m}, {"url", st["url"]}, {"threw", threw},
                        {"obs", json{{"attrs", json::object()}, {"url", ""}}}});
         emit(out, json{{"e", "End"}});
-        fflush(out);
-        _exit(0);
+        return;
       }
       emit(out, json{{"e", "Create"}, {"user", m}, {"url", st["url"]}, {"threw", ""}, {"obs", project(tab, *pool.back())}});
     }
@@ -796,7 +786,6 @@ static void emit(FILE *f, const json &j)
       provs.emplace_back();
       Prov &p = provs.back();
       p.kind  = st["kind"];
-      json obs;
       {
         // the provider must keep its own copy: the argument dies right after construction
         std::unique_ptr<sdkr::Resource> arg(new sdkr::Resource(*pool.at(ri - 1)));
@@ -857,7 +846,7 @@ static void emit(FILE *f, const json &j)
           return true;
         });
       }
-      json ev = {{"e", "Emit"}, {"p", pi}, {"kind", p.kind}, {"same", p.seen.same}};
+      json ev   = {{"e", "Emit"}, {"p", pi}, {"kind", p.kind}, {"same", p.seen.same}};
       ev["obs"] = p.seen.have ? p.seen.obs : json{{"attrs", json::object()}, {"url", "=<nothing exported>"}};
       emit(out, ev);
     }
@@ -881,6 +870,45 @@ static void emit(FILE *f, const json &j)
   if (pool.size() > 2 || !provs.empty())
     emit(out, json{{"e", "Audit"}, {"pool", pool_json()}});
   emit(out, json{{"e", "End"}});
+}
+
+// The child: one process = one environment.  All jobs of a batch have the same Cfg step, so they can
+// share the process (Resource::Create reads the environment once per process); every job starts a new
+// history (new Cfg event, fresh pool).
+[[noreturn]] static void child_main(const json &batch, size_t from_job, size_t from_step, int from_inst, FILE *out)
+{
+  // keep the SDK's own diagnostics out of the way
+  sdkc::internal_log::GlobalLogHandler::SetLogLevel(sdkc::internal_log::LogLevel::None);
+  const json &first = batch.at(0);
+  Rng erng(first.value("seed", (uint64_t)1) ^ 0x5bd1e995u);
+  static const std::vector<std::string> salts = {"", "-x", ".0123456789abcdefghijklmnopqrstuvwxyzABCDEFGHIJKLMNOPQRSTUVWXYZ/0123456789"};
+  Tables tab(salts[erng.below(salts.size())]);
+  Env env;
+  json cfg = first["steps"].at(0);
+  env.toks = cfg.value("toks", json::array());
+  if (!env.toks.is_array())
+    env.toks = json::array();
+  env.svc = cfg.value("svc", json{{"c", "unset"}, {"v", "-"}});
+  env.ora = concretise_tokens(tab, env.toks, erng);
+  if (env.toks.empty() && erng.below(2) == 0)
+    unsetenv("OTEL_RESOURCE_ATTRIBUTES");
+  else
+    setenv("OTEL_RESOURCE_ATTRIBUTES", env.ora.c_str(), 1);
+  if (env.svc["c"] == "unset")
+    unsetenv("OTEL_SERVICE_NAME");
+  else if (env.svc["c"] == "empty")
+    setenv("OTEL_SERVICE_NAME", "", 1);
+  else
+    setenv("OTEL_SERVICE_NAME", tab.str(env.svc["v"]).c_str(), 1);
+  for (size_t jn = from_job; jn < batch.size(); jn++)
+  {
+    if (batch[jn]["steps"].at(0) != cfg)
+    {
+      fprintf(stderr, "c18_env: jobs of one batch must share their Cfg step\n");
+      _exit(90);
+    }
+    run_steps(batch[jn], jn, tab, env, jn == from_job ? from_step : 1, jn == from_job ? from_inst : 0, out);
+  }
   fflush(out);
   _exit(0);
 }
@@ -905,11 +933,11 @@ static std::string read_all(int fd)
   return s;
 }
 
-static void run_job(const json &job)
+static void run_batch(const json &batch)
 {
-  size_t from_step = 1;
-  int from_inst    = 0;
-  for (int attempt = 0; attempt < 100000; attempt++)
+  size_t from_job = 0, from_step = 1;
+  int from_inst = 0;
+  while (from_job < batch.size())
   {
     int po[2], pe[2];
     if (pipe(po) || pipe(pe))
@@ -932,13 +960,14 @@ static void run_job(const json &job)
       dup2(dn, 1);
       dup2(pe[1], 2);
       FILE *out = fdopen(po[1], "w");
-      child_main(job, from_step, from_inst, out);
+      child_main(batch, from_job, from_step, from_inst, out);
     }
     close(po[1]);
     close(pe[1]);
     FILE *in = fdopen(po[0], "r");
     json lastpre;
-    bool ended = false;
+    size_t cur = from_job;  // job whose history is in progress
+    bool first_cfg = true, open_history = false;
     char *line = nullptr;
     size_t cap = 0;
     ssize_t n;
@@ -959,8 +988,15 @@ static void run_job(const json &job)
         continue;
       }
       lastpre = json();
+      if (ev["e"] == "Cfg")
+      {
+        if (!first_cfg)
+          cur++;
+        first_cfg    = false;
+        open_history = true;
+      }
       if (ev["e"] == "End")
-        ended = true;
+        open_history = false;
       fputs(dumps(ev).c_str(), stdout);
       fputc('\n', stdout);
     }
@@ -970,7 +1006,7 @@ static void run_job(const json &job)
     close(pe[0]);
     int st = 0;
     waitpid(pid, &st, 0);
-    if (ended && WIFEXITED(st) && WEXITSTATUS(st) == 0)
+    if (WIFEXITED(st) && WEXITSTATUS(st) == 0 && !open_history)
       return;
     if (WIFEXITED(st) && (WEXITSTATUS(st) == 90 || WEXITSTATUS(st) == 91))
     {
@@ -985,6 +1021,8 @@ static void run_job(const json &job)
     {
       json ev = lastpre;
       ev.erase("pre");
+      size_t k = ev["jobidx"].get<size_t>();
+      ev.erase("jobidx");
       ev["ret"]    = "na";
       ev["val"]    = ub ? "ub" : "crash";
       ev["status"] = st;
@@ -993,18 +1031,33 @@ static void run_job(const json &job)
       puts("{\"e\":\"End\"}");
       size_t step = ev["step"].get<size_t>();
       int inst    = ev["inst"].get<int>();
-      if (!flat_before(job, step))
-        return;  // the rest of this history needs the state that died with the process
-      from_step = step;
-      from_inst = inst + 1;
-      if (from_inst >= job.value("ninst", 1) && step + 1 >= job["steps"].size())
-        return;  // nothing left
+      const json &job = batch[k];
+      bool left = inst + 1 < job.value("ninst", 1) || step + 1 < job["steps"].size();
+      if (flat_before(job, step) && left)
+      {
+        from_job  = k;
+        from_step = step;
+        from_inst = inst + 1;
+      }
+      else
+      {
+        // the rest of this history needs the state that died with the process
+        from_job  = k + 1;
+        from_step = 1;
+        from_inst = 0;
+      }
       continue;
     }
+    if (first_cfg)
+      puts(dumps(json{{"e", "Cfg"}, {"toks", json::array()}, {"svc", json{{"c", "unset"}, {"v", "-"}}}, {"pool", json::array()},
+                      {"job", batch[cur].value("id", -1)}, {"note", "the process died before its first event"}})
+               .c_str());
     json ev = {{"e", "Crash"}, {"during", lastpre}, {"status", st}, {"stderr", tail}};
     puts(dumps(ev).c_str());
     puts("{\"e\":\"End\"}");
-    return;
+    from_job  = cur + 1;
+    from_step = 1;
+    from_inst = 0;
   }
 }
 
@@ -1122,11 +1175,15 @@ int main(int argc, char **argv)
     {
       if (line.empty())
         continue;
-      run_job(json::parse(line));
+      json j = json::parse(line);
+      if (j.contains("batch"))
+        run_batch(j["batch"]);
+      else
+        run_batch(json::array({j}));
       n++;
     }
     fflush(stdout);
-    fprintf(stderr, "c18_env: %zu jobs\n", n);
+    fprintf(stderr, "c18_env: %zu batches\n", n);
     return 0;
   }
   if (argc >= 5 && std::string(argv[1]) == "random")
@@ -1141,7 +1198,7 @@ int main(int argc, char **argv)
       if (argc >= 6 && std::string(argv[5]) == "dump")
         puts(dumps(job).c_str());
       else
-        run_job(job);
+        run_batch(json::array({job}));
     }
     fflush(stdout);
     return 0;
